@@ -1580,6 +1580,20 @@ def _np_delete(i, a, k):
     if axis not in (None, 0):
         raise OutOfSubset('np.delete axis')
     used('numpy.delete')
+    if isinstance(idx, Arr) and isinstance(idx.tag, tuple) and idx.tag[:1] == ('where',):
+        # deletion of every index returned by np.where(mask): exact for no match and for a single match; with two or more
+        # matches only the length of the result is known (its rows are unconstrained: an over-approximation that can only
+        # make obligations about the result undecidable or refuted on states with >= 2 matching rows)
+        _, mask, cnt, first = idx.tag
+        if ops.equal(mask.n, arr.n) is not True:
+            raise OutOfSubset('np.delete with the indices of a mask over another array')
+        if i.ctx.branch(ops.equal(cnt, 0)):
+            return Arr(arr.n, arr.fn, np=True, cols=arr.cols, prov=arr.prov)
+        if i.ctx.branch(ops.equal(cnt, 1)):
+            idx = first
+        else:
+            rest = i.ctx.fresh_arr('delete.many', n=ops.arith('-', arr.n, cnt), np=True, cols=arr.cols)
+            return rest
     j = norm_index(idx, arr.n)
     if not i.ctx.branch(in_range(j, 0, arr.n)):
         raise RaiseSignal('IndexError', 'index out of bounds for np.delete')
@@ -1667,6 +1681,7 @@ def _np_where(i, a, k):
         ctx.s.add(z3.Implies(cnt.t == 0, z3.ForAll([q], z3.Implies(z3.And(q >= 0, q < n), z3.Not(cq)))))
         rest = ctx.fresh_arr('where.rest', n=cnt, kind='int')
         idx = Arr(cnt, (lambda kk, j=j, rest=rest: _sel(ops.equal(kk, 0), j, lambda: rest.fn(kk))), np=True)
+        idx.tag = ('where', c, cnt, j)
         return (idx,)
     raise OutOfSubset('np.where with one argument')
 
